@@ -75,6 +75,9 @@ impl WriteBatch {
 
 struct KeyValueStoreState {
     seq_no: u64,
+    // The highest sequence number whose write, and every write before it, has completed.
+    // Reads take their snapshot here, not at `seq_no`, which also covers writes in flight.
+    visible_seq_no: u64,
     imm: Option<Arc<MemTable>>,
     imm_trigger: u64,
     mem: Arc<MemTable>,
@@ -119,6 +122,7 @@ impl KeyValueStore {
         seq_no += 1;
         let state = Mutex::new(KeyValueStoreState {
             seq_no,
+            visible_seq_no: seq_no,
             imm,
             imm_trigger,
             mem,
@@ -348,7 +352,7 @@ impl KeyValueStore {
     }
 
     pub fn write(&self, mut batch: WriteBatch) -> Result<(), SError> {
-        let (mut wait_guard, memtable, log) = {
+        let (mut wait_guard, memtable, log, seq_no) = {
             let mut state = self.state.lock().unwrap();
             let wait_guard = self.wait_list.link(());
             let seq_no = state.seq_no + 1;
@@ -363,6 +367,7 @@ impl KeyValueStore {
                 wait_guard,
                 Arc::clone(&state.mem),
                 Arc::clone(&state.mem_log),
+                seq_no,
             )
         };
         #[cfg(rescrv_blue_verif)]
@@ -383,6 +388,8 @@ impl KeyValueStore {
         while !wait_guard.is_head() {
             state = wait_guard.naked_wait(state);
         }
+        // Every earlier write has left the wait list, so everything up to here is complete.
+        state.visible_seq_no = std::cmp::max(state.visible_seq_no, seq_no);
         drop(wait_guard);
         self.wait_list.notify_head();
         Ok(())
@@ -394,7 +401,7 @@ impl KeyValueStore {
             let mem = Arc::clone(&state.mem);
             let imm = state.imm.clone();
             let version = self.tree.take_snapshot();
-            (mem, imm, version, state.seq_no)
+            (mem, imm, version, state.visible_seq_no)
         };
         *is_tombstone = false;
         let ret = mem.load(key, timestamp, is_tombstone)?;
@@ -421,7 +428,7 @@ impl KeyValueStore {
             let mem = Arc::clone(&state.mem);
             let imm = state.imm.clone();
             let version = self.tree.take_snapshot();
-            (mem, imm, version, state.seq_no)
+            (mem, imm, version, state.visible_seq_no)
         };
         let mut cursors: Vec<Box<dyn Cursor>> = Vec::with_capacity(3);
         let mut mem_scan = mem.range_scan(start_bound, end_bound, timestamp)?;
